@@ -151,6 +151,9 @@ class Canon:
             self.assert_eq_forms(body)
             self.match_bind_guards(body)
             self.split_last_match(body)
+            self.end_element_lets(body)
+            self.if_let_get(body)
+            self.split_tuple_let_else(body)
             self.let_else(body)
             self.flatten_blocks(body)
             self.option_searches(body, f)
@@ -1447,6 +1450,119 @@ class Canon:
             n["cond"] = cond
             n.pop("src", None)
             self.stats["loop_to_while"] = self.stats.get("loop_to_while", 0) + 1
+
+    def end_element_lets(self, body):
+        """`let Some(t) = X.last_mut() else { <diverges> };` (also last / first / first_mut; X a pure Vec / slice place)  ->
+        `if X.is_empty() { <diverges> }` and every later use of `t` is `&mut X[len-1]` (resp. `&X[..]`, index 0 for first)."""
+        for blk in [n for n in _walk(body) if n.get("k") == "Block"]:
+            out, changed = [], False
+            stmts = list(blk.get("stmts", []))
+            for pos, st in enumerate(stmts):
+                ok = st.get("k") == "Let" and isinstance(st.get("els"), dict) and st.get("init") is not None
+                pat = st.get("pat", {}) if ok else {}
+                init = _strip(st["init"]) if ok else {}
+                inner = pat["ps"][0] if pat.get("k") == "TupleStruct" and len(pat.get("ps", [])) == 1 else None
+                if not (ok and str(pat.get("path", "")).endswith("::Some") and inner is not None and inner.get("k") == "Bind" and not inner.get("mut") and
+                        init.get("k") == "MethodCall" and init.get("name") in ("last", "last_mut", "first", "first_mut") and not init.get("args") and
+                        "[T]::" in str(init.get("fn") or "") and self._pure(init["recv"])):
+                    out.append(st)
+                    continue
+                X = init["recv"]
+                sp = st.get("sp") or [0, 0, 0, 0]
+
+                def usz(node):
+                    node.setdefault("ty", "usize")
+                    node.setdefault("id", self._id())
+                    node.setdefault("sp", list(sp))
+                    return node
+
+                def base():
+                    r = copy.deepcopy(X)
+                    r.pop("adj", None)
+                    return r
+                if init["name"].startswith("last"):
+                    ix = usz({"k": "Binary", "op": "-", "l": usz({"k": "MethodCall", "name": "len", "fn": "std::vec::Vec<T, A>::len", "impl": "std::vec::Vec<T, A>::len", "fn_local": False,
+                                                                "recv": base(), "args": []}), "r": usz({"k": "Lit", "v": "1"})})
+                else:
+                    ix = usz({"k": "Lit", "v": "0"})
+                ety = str(inner.get("ty", "")).lstrip("&").replace("mut ", "", 1).strip()
+                ref = {"k": "AddrOf", "mut": init["name"].endswith("_mut"), "e": {"k": "Index", "base": base(), "idx": ix, "id": self._id(), "ty": ety, "sp": list(sp)},
+                       "id": self._id(), "ty": inner.get("ty"), "sp": list(sp)}
+                cond = {"k": "MethodCall", "name": "is_empty", "fn": "std::vec::Vec<T, A>::is_empty", "impl": "std::vec::Vec<T, A>::is_empty", "fn_local": False,
+                        "recv": base(), "args": [], "id": self._id(), "ty": "bool", "sp": list(sp)}
+                out.append({"k": "Expr", "e": {"k": "If", "cond": cond, "then": st["els"], "id": self._id(), "ty": "()", "sp": list(sp)}, "sp": list(sp)})
+                rest = stmts[pos + 1:] + ([{"e": blk["expr"]}] if blk.get("expr") is not None else [])
+                for r_ in rest:
+                    for u in [y for y in _walk(r_) if y.get("k") == "Local" and y.get("v") == inner["v"]]:
+                        keep = {kk: u.get(kk) for kk in ("sp",)}
+                        u.clear()
+                        u.update(copy.deepcopy(ref))
+                        for kk, vv in keep.items():
+                            if vv is not None:
+                                u[kk] = vv
+                changed = True
+                self.stats["end_element_lets"] = self.stats.get("end_element_lets", 0) + 1
+            if changed:
+                blk["stmts"] = out
+
+    def if_let_get(self, body):
+        """`if let Some(p) = X.get(i) { B }` (X a pure Vec / slice place, i pure, no else or any else)  ->  `if i < X.len() { B[p := &X[i]] }`."""
+        for n in [y for y in _walk(body) if y.get("k") == "If" and isinstance(y.get("cond"), dict) and y["cond"].get("k") == "LetCond"]:
+            lc = n["cond"]
+            pat, init = lc.get("pat", {}), _strip(lc.get("init") or {})
+            if not (pat.get("k") == "TupleStruct" and str(pat.get("path", "")).endswith("::Some") and len(pat.get("ps", [])) == 1):
+                continue
+            if not (init.get("k") == "MethodCall" and init.get("name") == "get" and len(init.get("args", [])) == 1 and "[T]::get" in str(init.get("fn") or "") and
+                    self._pure(init["recv"]) and self._pure(init["args"][0]) and str(init["args"][0].get("ty")) == "usize"):
+                continue
+            q = pat["ps"][0]
+            b = q["p"] if q.get("k") == "Ref" else q
+            if b.get("k") not in ("Bind", "Wild") or b.get("mut"):
+                continue
+            sp = n.get("sp") or [0, 0, 0, 0]
+            X = copy.deepcopy(init["recv"])
+            X.pop("adj", None)
+            ix = init["args"][0]
+            ety = b.get("ty") if q.get("k") == "Ref" else str(b.get("ty", "")).lstrip("&")
+            if b.get("k") == "Bind":
+                elem = {"k": "Index", "base": copy.deepcopy(X), "idx": copy.deepcopy(ix), "id": self._id(), "ty": ety, "sp": list(sp)}
+                repl = elem if q.get("k") == "Ref" else {"k": "AddrOf", "mut": False, "e": elem, "id": self._id(), "ty": b.get("ty"), "sp": list(sp)}
+                for u in [y for y in _walk(n["then"]) if y.get("k") == "Local" and y.get("v") == b["v"]]:
+                    keep = {kk: u.get(kk) for kk in ("sp", "adj")}
+                    u.clear()
+                    u.update(copy.deepcopy(repl))
+                    for kk, vv in keep.items():
+                        if vv is not None:
+                            u[kk] = vv
+            ln = {"k": "MethodCall", "name": "len", "fn": "std::vec::Vec<T, A>::len", "impl": "std::vec::Vec<T, A>::len", "fn_local": False, "recv": copy.deepcopy(X), "args": [],
+                  "id": self._id(), "ty": "usize", "sp": list(sp)}
+            n["cond"] = {"k": "Binary", "op": "<", "l": copy.deepcopy(ix), "r": ln, "id": self._id(), "ty": "bool", "sp": list(sp)}
+            self.stats["if_let_get"] = self.stats.get("if_let_get", 0) + 1
+
+    def split_tuple_let_else(self, body):
+        """`let (Ok(a), Ok(b)) = (E1, E2) else { D };` with read-only E1, E2  ->  `let Ok(a) = E1 else { D }; let Ok(b) = E2 else { D };`"""
+        for blk in [n for n in _walk(body) if n.get("k") == "Block"]:
+            out, changed = [], False
+            for st in blk.get("stmts", []):
+                pat = st.get("pat", {}) if st.get("k") == "Let" and isinstance(st.get("els"), dict) and st.get("init") is not None else {}
+                init = _strip(st["init"]) if pat else {}
+                if pat.get("k") == "Tuple" and init.get("k") == "Tup" and len(pat.get("ps", [])) == len(init.get("es", [])) >= 2 and \
+                        all(q.get("k") == "TupleStruct" and str(q.get("path", "")).split("::")[-1] in ("Ok", "Some") for q in pat["ps"]) and \
+                        all(self._readonly(e_) for e_ in init["es"]):
+                    sp = st.get("sp") or [0, 0, 0, 0]
+                    for k_, (q, e_) in enumerate(zip(pat["ps"], init["es"])):
+                        els = copy.deepcopy(st["els"])
+                        base = self.fresh
+                        self.fresh += 1000
+                        for y in _walk(els):
+                            if isinstance(y.get("id"), int):
+                                y["id"] += base
+                        out.append({"k": "Let", "pat": q, "init": e_, "els": els, "sp": [sp[0], sp[1] + 0.0001 * k_, sp[2] if len(sp) > 2 else sp[0], sp[3] if len(sp) > 3 else sp[1]]})
+                    changed = True
+                else:
+                    out.append(st)
+            if changed:
+                blk["stmts"] = out
 
     def let_else(self, body):
         """`let Ok(x) = E else { <diverges> };`  ->  `let x = match E { Ok(x') => x', Err(_) => <diverges> };` (likewise `Some(x)` / `None`)."""
